@@ -442,7 +442,7 @@ func TestC35(t *testing.T) {
 		emit(c.sh, c.n, c.max, c.acts, c.name)
 	}
 	limits := []int{1, 1, 60, 110, 160, 300, 1 << 21, 1 << 21, 1 << 21}
-	for i := 0; i < e.Pick(450, 9000); i++ {
+	for i := 0; i < e.Pick(450, 5000); i++ {
 		n := 2 + e.Rng.Intn(5)
 		if e.Rng.Intn(10) == 0 {
 			n = 10
